@@ -34,6 +34,7 @@ type cliOpts struct {
 	AgentCloseErr bool  `json:"agent_close_err,omitempty"`
 	MsgSize       []int `json:"msg_size,omitempty"` // per transaction slot, 0 = 20 bytes
 	PoolFanout    bool  `json:"pool_fanout,omitempty"`
+	StallWrite    bool  `json:"stall_write,omitempty"` // Write blocks until the connection is closed, then fails (TCP back pressure)
 	MaxAttempts   int   `json:"-"`
 }
 
@@ -49,6 +50,9 @@ func (e cliEv) String() string {
 	case "resp":
 		if e.Arg == 1 {
 			return fmt.Sprintf("resp(%c,1024 bytes)", 'A'+e.I)
+		}
+		if e.Arg == 2 {
+			return fmt.Sprintf("resp(%c,header only)", 'A'+e.I)
 		}
 		return fmt.Sprintf("resp(%c)", 'A'+e.I)
 	case "start", "do", "dup", "overwrite", "indicate":
@@ -93,6 +97,9 @@ func (s cliScenario) String() string {
 	if s.Opts.AgentCloseErr {
 		o += " agentCloseErr"
 	}
+	if s.Opts.StallWrite {
+		o += " stalledWrites"
+	}
 	if s.Opts.RTO != 0 {
 		o += fmt.Sprintf(" rto=%v", time.Duration(s.Opts.RTO))
 	}
@@ -122,6 +129,7 @@ type obsRec struct {
 	Inst int    // transaction instance (handler, start-ret, do-ret), -1 otherwise
 	Err  error
 	Data []byte // write bytes / handler message raw
+	Attr string // handler/fallback: rendering of event.Message's Type, Length, TransactionID and attribute list
 	ID   [12]byte
 	Time time.Time
 	N    int // close-ret: which Close call
@@ -205,7 +213,11 @@ func (c *vConn) Read(p []byte) (int, error) {
 }
 
 func (c *vConn) Write(p []byte) (int, error) {
-	sched.Point("conn.Write", nil)
+	if c.w.sc.Opts.StallWrite {
+		sched.Point("conn.Write(stalled)", func() bool { return c.closed })
+	} else {
+		sched.Point("conn.Write", nil)
+	}
 	var err error
 	switch {
 	case c.closed:
@@ -372,6 +384,12 @@ func cliResponseSized(slot int, variant int, size int) []byte {
 	m.TransactionID = cliID(slot)
 	m.Type = stun.BindingSuccess
 	m.WriteHeader()
+	if size == 2 {
+		// a header-only response (no attributes): distinct datagrams differ in the two leading type bits only
+		raw := append([]byte(nil), m.Raw...)
+		raw[0] |= byte(variant%4) << 6
+		return raw
+	}
 	m.Add(stun.AttrSoftware, []byte(fmt.Sprintf("resp-%d-%d", slot, variant)))
 	if size == 1 {
 		m.Add(stun.AttrData, make([]byte, 1024-len(m.Raw)-4))
@@ -444,12 +462,22 @@ func errClass(err error) string {
 	return "other:" + err.Error()
 }
 
+// msgContent renders what a handler can see of a Message besides Raw.
+func msgContent(m *stun.Message) string {
+	s := fmt.Sprintf("%v|%d|%x|", m.Type, m.Length, m.TransactionID)
+	for _, a := range m.Attributes {
+		s += fmt.Sprintf("%x:%d:%x,", uint16(a.Type), a.Length, a.Value)
+	}
+	return s
+}
+
 func (w *cliWorld) handlerFor(inst *txInst, idx int) stun.Handler {
 	return func(e stun.Event) {
 		sched.Point("handler", nil)
 		r := obsRec{Kind: "handler", Inst: idx, Err: e.Error, ID: e.TransactionID}
 		if e.Message != nil {
 			r.Data = append([]byte(nil), e.Message.Raw...)
+			r.Attr = msgContent(e.Message)
 		}
 		pos := w.rec(r)
 		inst.HandlerN++
@@ -616,6 +644,7 @@ func runScenario(sc cliScenario) (*sched.Result, *cliWorld) {
 				r := obsRec{Kind: "fallback", Inst: -1, Err: e.Error, ID: e.TransactionID}
 				if e.Message != nil {
 					r.Data = append([]byte(nil), e.Message.Raw...)
+					r.Attr = msgContent(e.Message)
 				}
 				w.rec(r)
 			}))
